@@ -24,7 +24,7 @@ RULE = (
     "on 0-2 extra idle wires (both the matrix and the state-evolution path of apply_operation) returns the reference state within 1e-6. "
     "grad cases (fixed representatives in the quick tier, generated in the thorough tier): cost <B> after prep + evolution; reference "
     "gradient = 5-point central differences (h=2e-3) of the reference cost, cross-checked against the integral of the stochastic "
-    "parameter-shift integrand i<[H_j,B(tau)]> df_j/dv; pulse_odegen within 1e-5, jax.grad within 1e-6, stoch_pulse_grad(num_split_times=40, "
+    "parameter-shift integrand i<[H_j,B(tau)]> df_j/dv; pulse_odegen within 1e-5, jax.grad within 1e-6, stoch_pulse_grad(num_split_times=100, "
     "fixed sampler_seed, broadcasting) within 5 sigma + 1e-6 where sigma = (t1-t0) std_tau(integrand)/sqrt(N) computed from the "
     "reference. Non-trivial: two non-commuting terms and a time-dependent coefficient inside the window."
 )
@@ -35,11 +35,11 @@ ASSUMPTIONS = [
     "Times are increasing; Hamiltonians are Hermitian by construction; qp.pulse.drive (not in the documented API summary) is not used.",
     "stoch_pulse_grad is a Monte-Carlo estimator: only a 5-sigma band around the true derivative is asserted (sigma from the reference integrand).",
 ]
-BUDGET = {"quick": {"examples": 24, "min_nontrivial": 2}, "thorough": {"examples": 1600, "shards": 16, "budget_s": 3300}}
+BUDGET = {"quick": {"examples": 20, "min_nontrivial": 2}, "thorough": {"examples": 1600, "shards": 16, "budget_s": 3300}}
 SHRINK_LISTS = ("terms", "prep")
 
 WIRE_SETS = [[0, 1, 2, 3, 4], ["a", "b", "c", "d", "e"], [2, "q", 0, "aux", 5]]
-r3 = lambda lo, hi: st.floats(lo, hi).map(lambda v: round(v, 3))  # noqa: E731
+r3 = lambda lo, hi: st.floats(lo, hi).map(lambda v: round(v, 3)).filter(lambda v: abs(v) > 0.03)  # noqa: E731  (exact zeros create idle gaps)
 
 
 # ----------------------------------------------------------------------------------------------------------------
@@ -104,16 +104,19 @@ def pauli_op(draw, wires, max_terms=2):
 def hw_term(draw, wires, kind):
     ws = draw(gen.subset(wires, draw(st.integers(1, len(wires)))))
 
-    def part(scale):
-        c = draw(st.one_of(r3(-scale, scale).map(lambda v: {"f": "fixed", "c": v}), smooth_coef(), smooth_coef(),
-                           coef(fixed_ok=False).filter(lambda c: c["f"] == "pwc")))
-        return c
+    both = draw(st.booleans())  # amplitude and phase both callable: parameters are consolidated by the reorder function
 
-    amp = part(0.4).copy()
+    def part(scale, force=False):
+        opts = [smooth_coef(), smooth_coef(), coef(fixed_ok=False).filter(lambda c: c["f"] == "pwc")]
+        if not force:
+            opts.append(r3(-scale, scale).map(lambda v: {"f": "fixed", "c": v}))
+        return draw(st.one_of(*opts))
+
+    amp = part(0.4, both).copy()
     if amp["f"] == "fixed" and abs(amp["c"]) < 0.05:
         amp["c"] = 0.25
     # keep drive strengths moderate: smooth amplitudes are scaled through their leading parameter
-    t = {"hw": kind, "amp": amp, "phase": part(1.5), "w": ws}
+    t = {"hw": kind, "amp": amp, "phase": part(1.5, both), "w": ws}
     if kind == "rydberg":
         t["det"] = part(0.3)
     else:
@@ -178,7 +181,7 @@ def grad_case(draw, method=None):
     return {"kind": "grad", "method": method or draw(st.sampled_from(["odegen", "stoch", "jax"])), "wires": wires, "terms": terms,
             "t": [t0, round(t0 + draw(st.sampled_from([0.6, 1.0, 1.5])), 3)],
             "prep": draw(gen.op_list(wires, pool={"RX": (1, 1), "RY": (1, 1), "Hadamard": (0, 1)}, max_depth=2, ang=gen.generic_angles(), p_derive=0.0)),
-            "obs": draw(pauli_op(wires, max_terms=1)), "nsplit": 40, "seed": draw(st.integers(0, 1000)), "build": "dot"}
+            "obs": draw(pauli_op(wires, max_terms=1)), "nsplit": 100, "seed": draw(st.integers(0, 1000)), "build": "dot"}
 
 
 def strategy(tier):
@@ -192,9 +195,9 @@ GRAD_FIXED = [
      "terms": [{"coef": {"f": "fixed", "c": 0.5}, "op": {"terms": [[1.0, "X", ["a"]]]}},
                {"coef": {"f": "sin", "p": [0.9, 1.3]}, "op": {"terms": [[1.0, "Z", ["a"]]]}}],
      "prep": [{"op": "RY", "p": [0.4], "w": ["a"]}], "obs": {"terms": [[1.0, "Y", ["a"]]]}},
-    {"kind": "grad", "method": "stoch", "wires": [0], "t": [0.1, 1.4], "build": "dot", "nsplit": 40, "seed": 18,
+    {"kind": "grad", "method": "stoch", "wires": [0], "t": [0.1, 1.4], "build": "dot", "nsplit": 100, "seed": 18,
      "terms": [{"coef": {"f": "fixed", "c": 0.6}, "op": {"terms": [[1.0, "X", [0]]]}},
-               {"coef": {"f": "pwc", "span": [0.0, 2.0], "p": [0.8, -0.5], "scalar_span": False}, "op": {"terms": [[1.0, "Z", [0]]]}}],
+               {"coef": {"f": "sin", "p": [0.9, 1.1]}, "op": {"terms": [[1.0, "Z", [0]]]}}],
      "prep": [{"op": "RX", "p": [0.7], "w": [0]}], "obs": {"terms": [[1.0, "Y", [0]]]}},
     {"kind": "grad", "method": "jax", "wires": [1, 0], "t": [0.0, 0.9], "build": "arith", "nsplit": 40, "seed": 3,
      "terms": [{"coef": {"f": "gauss", "p": [1.1, 0.7]}, "op": {"terms": [[1.0, "XY", [0, 1]]]}},
@@ -550,6 +553,8 @@ def check_grad(spec, qp, jax, jnp):
         if bad.any():
             raise Viol("gradient-stoch", f"stoch_pulse_grad outside 5 sigma: got {got.tolist()} ref {ref.tolist()} sigma {sigma.tolist()} "
                        f"terms={spec['terms']} t={spec['t']} seed={spec['seed']}", sig="stoch", features=feats)
+        if spec.get("debug"):
+            print("stoch got", got.tolist(), "ref", ref.tolist(), "sigma", sigma.tolist())
         sig_lab = "sigma/|g|<0.2" if np.all(sigma < 0.2 * np.maximum(np.abs(ref), 1e-3)) else "sigma-large"
     nt, _, _ = _nontrivial(spec, order)
     return Result(True, labels=["grad", "method:" + method, sig_lab, f"nparams={len(flat)}", "noncommuting+timedep" if nt else "simple"] + _labels(spec))
